@@ -97,3 +97,103 @@ Example C09_refuting_log :
   exists st, run_fresh wit_cf init wit_silent = Some st /\
     cblog st = [(1, CbResp); (1, CbEnd); (1, CbFailed 101); (1, CbSent)].
 Proof. eexists. vm_compute. split; reflexivity. Qed.
+
+(* ================================================================ strengthened statements (S09)
+
+   ONE excluded class, shared with C10 (Model/RelayCalm.v, Proofs/RelayCalmP.v).  A goroutine of the relay (the
+   reader of a connection handling one frame, or the OnTimer goroutine of a fired relay timer)
+   ACTS ON call c when a relayItems operation it performs (Get / Entomb / Delete) hits a live item
+   of c, or when it is created by the firing of the timer of a live item of c; from then until it
+   has finished its frame it HOLDS c (it may hold a looked-up copy of c's item).
+     [no_overlap cf ls]  no goroutine acts on a call that another goroutine holds: no timer of c
+                         fires and no other reader touches c while a goroutine holds a looked-up
+                         copy of c's item;
+     [calm cf ls]        no_overlap, and no Get returns a live item of a call whose ORIGINATING
+                         item is already completed (no frame is processed between the timeout of
+                         the originating item and the timeout of the destination item).
+   Both are decidable predicates on the schedule alone ([sched]).  The schedules they exclude are
+   the schedule classes of the known finding relay:nonfinal-frame-vs-timer:report-after-End
+   (two goroutines in flight on one call; a frame for the still-live destination item after the
+   originating item timed out). *)
+From Verif Require Import Model.RelayCalm Proofs.RelayCalmP Proofs.RelayPerCallP.
+
+(* the hypothesis of C09_silent_after_end_partial follows from [calm] ... *)
+Theorem C09_calm_implies_calm_run : forall cf ls st,
+  run_fresh cf init ls = Some st -> calm cf ls -> calm_run cf init ls.
+Proof. exact (fun cf ls st H Hc => calm_old cf ls init [] st Inv_init HInv_init Shape_init H Hc). Qed.
+Print Assumptions C09_calm_implies_calm_run.
+
+(* ... hence: nothing is reported for a call after its End in every fresh-id schedule without
+   overlap in which no frame is processed for a call whose originating item is completed.
+   MISSING with respect to the full statement: exactly the schedules that are not [calm]. *)
+Theorem C09_silent_after_end_calm : forall cf ls st,
+  run_fresh cf init ls = Some st -> calm cf ls -> silent_after_end cb_is_end (cblog st).
+Proof. exact silent_after_end_calm. Qed.
+Print Assumptions C09_silent_after_end_calm.
+
+(* End exactly once PER CALL: a started call is [call_done] when no goroutine refers to it any
+   more (no instruction carries it, none of the keys an instruction holds is the key of one of
+   its items, no OnTimer run of one of its timers is pending) and none of its items has an armed
+   timer -- whatever the rest of the relay is doing.  Such a call has been ended exactly once. *)
+Theorem C09_end_exactly_once_call : forall cf ls st c, run_fresh cf init ls = Some st -> call_done st c ->
+  1 <= c < next_call st -> end_exactly_once cb_is_end c (cblog st).
+Proof. exact end_exactly_once_call. Qed.
+Print Assumptions C09_end_exactly_once_call.
+
+(* ... and forgotten per call: every item of a done call is a tombstone, and once the tomb GC
+   timers of its items have fired the tables hold nothing for it. *)
+Theorem C09_forgotten_call : forall cf ls st c, run_fresh cf init ls = Some st -> call_done st c ->
+  (forall t it, In (t, it) (items st) -> it_call it = c -> it_tomb it = true) /\
+  ((forall t it, In (t, it) (items st) -> it_call it = c -> ~ In t (gcs st)) ->
+   forall t it, In (t, it) (items st) -> it_call it <> c).
+Proof.
+  exact (fun cf ls st c H Hd =>
+    conj (call_done_tombs st c (proj1 (reach_both cf ls st H)) (proj2 (reach_both cf ls st H)) Hd)
+         (forgotten_call cf ls st c H Hd)).
+Qed.
+Print Assumptions C09_forgotten_call.
+
+(* the pending counter of a connection with no live item and no goroutine holding a unit is zero,
+   so that connection can complete a graceful close (LDrained) while other connections are busy *)
+Theorem C09_pending_zero_conn : forall cf ls st k, run_fresh cf init ls = Some st ->
+  (forall t it, In (t, it) (items st) -> key_conn t = k -> it_tomb it = true) ->
+  (forall th code j, In (th, code) (threads st) -> In j code -> hold_i k j = 0) ->
+  c_pending (get_conn st k) = 0.
+Proof. exact pending_zero_conn. Qed.
+Print Assumptions C09_pending_zero_conn.
+
+(* the globally quiescent statements above are the special case "every call is done" *)
+Theorem C09_quiescent_call_done : forall st c, quiescent st -> call_done st c.
+Proof. exact quiescent_call_done. Qed.
+Print Assumptions C09_quiescent_call_done.
+
+(* Non-vacuity: the complete relayed call is calm; the refuting run has an overlap. *)
+Example C09_calm_example : sched wit_cf calm_chk init [] calm_example = true.
+Proof. exact calm_example_calm. Qed.
+Example C09_refuting_run_overlaps : sched wit_cf no_overlap_step init [] wit_silent = false.
+Proof. exact wit_silent_overlap. Qed.
+
+(* The admission decision (Relayer.canHandleNewCall, on the source and on the destination
+   connection) and the close decision (Relayer.canClose) of the model ARE the definitions
+   go2v regenerates from relay.go on every run (Gen/GenRelayFwd.v). *)
+From Verif Require Import Gen.GenRelayFwd Proofs.RelayGenTieP.
+
+Theorem C09_admission_decision_generated : forall cf st k f e c d room,
+  exec cf st (ICanHandle k f e c) room =
+    (let cn := get_conn st k in
+     if relayCanHandleNewCall (c_state cn)
+     then (put_conn st k {| c_state := c_state cn; c_pending := wrapU 32 (c_pending cn + 1); c_nextid := c_nextid cn |}, [IGetDest k f e c])
+     else (st, [ICb c (CbFailed reason_client_inactive); ICb c CbEnd; ISendErr k (f_id f) c_ErrCodeDeclined])) /\
+  exec cf st (IRemoteCan k f e c d) room =
+    (let cn := get_conn st d in
+     if relayCanHandleNewCall (c_state cn)
+     then (put_conn st d {| c_state := c_state cn; c_pending := wrapU 32 (c_pending cn + 1); c_nextid := c_nextid cn |}, [IAddDest k f e c d])
+     else (st, [ICb c (CbFailed reason_remote_inactive); ISendErr k (f_id f) c_ErrCodeDeclined; IDec k; ICb c CbEnd])).
+Proof. exact (fun cf st k f e c d room => conj (can_handle_tie cf st k f e c room) (remote_can_handle_tie cf st k f e c d room)). Qed.
+Print Assumptions C09_admission_decision_generated.
+
+Theorem C09_close_decision_generated : forall cf st k, panicked st = 0 ->
+  (c_state (get_conn st k) = c_connectionStartClose \/ c_state (get_conn st k) = c_connectionInboundClosed) ->
+  (step cf st (LDrained k) <> None <-> relayCanClose false (c_pending (get_conn st k)) = true).
+Proof. exact can_close_tie. Qed.
+Print Assumptions C09_close_decision_generated.
